@@ -64,6 +64,9 @@ func jsonKind(t types.Type) string {
 
 func runC16(c *Ctx) {
 	R := c.R
+	// where the document's hops come from (shared with C05 R05.4): every hop's address is the probe's address as bytes - the
+	// value `reachable` is derived from and that has to serialise
+	checkToHops(c)
 	sp := c.P.SSAPkgs["result"]
 	if sp == nil {
 		R.Fail("R16.1", "result#package", 0, "", "package result not loaded")
